@@ -525,7 +525,11 @@ def rule_ts_parsers(ctx) -> None:
                 if x.func.attr == "astimezone":
                     ops.add("astimezone")
                 if x.func.attr == "replace" and any(k.arg == "tzinfo" for k in x.keywords):
-                    ops.add("replace-tzinfo")
+                    # stamping UTC on a value that has no offset is the naive-means-UTC rule; anywhere else it discards an offset
+                    cf = ctx.cfg(f)
+                    nodes = cf.node_containing(x)
+                    guarded = bool(nodes) and any(pol and t.replace(" ", "").endswith(".tzinfoisNone") for t, pol in cf.facts(nodes[0]))
+                    ops.add("naive->utc" if guarded else "replace-tzinfo")
                 if x.func.attr == "replace" and x.args and const_str(x.args[0]) == "Z":
                     ops.add("Z->+00:00")
         sigs[q] = ops
